@@ -15,7 +15,7 @@ import (
 func init() {
 	register(&Property{
 		ID: "C14",
-		Explain: "Decided: C14.rules - Conn.advanceFrame is abstractly interpreted for every combination of opcode (16) x FIN x reserved-bit class x mask-vs-role x role x open-fragmented-message x compression negotiated x length form, " +
+		Explain: "Decided: C14.rules - Conn.advanceFrame is abstractly interpreted for every combination of opcode (16) x FIN x reserved-bit class x mask-vs-role x role x open-fragmented-message x compression negotiated x length form (7-bit, 16-bit, 64-bit, 64-bit with the top bit set, a Close with a one-byte body, and for control frames the 16/64-bit forms carrying a small length), " +
 			"with symbolic lengths and payloads, and its verdict (protocol error raised before delivering / frame accepted) is compared with a three-valued RFC 6455 section 5 decision table (reserved bits, reserved opcodes, fragmented or oversized " +
 			"control frames, continuation without a started message, new data frame inside a fragmented message, wrong masking; RSV1 on control/continuation frames under permessage-deflate is left unspecified); a 64-bit length with the top bit set must be refused; " +
 			"C14.len64 - the message-length accumulator cannot wrap past the read limit (sign check after the addition, or subtraction-form comparison); C14.limit - with a limit configured a data frame that takes the message past it yields the limit error and no frame, " +
@@ -88,9 +88,12 @@ func runC14(c *Ctx) {
 					for _, maskOK := range []bool{true, false} {
 						for _, readFinal := range []int64{0, 1} {
 							for _, comp := range []bool{false, true} {
-								for lf := 0; lf < 5; lf++ { // 0: <=125, 1: 126 form, 2: 127 form, 3: 127 form with the top bit set, 4: a Close frame with a 1-byte body
+								for lf := 0; lf < 7; lf++ { // 0: <=125, 1: 126 form, 2: 127 form, 3: 127 form with the top bit set, 4: a Close frame with a 1-byte body, 5/6: a control frame in the 126/127 form whose extended length is small (<= 125)
 									if lf == 4 && opcode != 8 {
 										continue
+									}
+									if lf >= 5 && !(opcode >= 8 && opcode <= 10) {
+										continue // for data frames a non-minimal length encoding is the sender's fault only (unspecified for the receiver)
 									}
 									total++
 									isCtl := opcode >= 8 && opcode <= 10
@@ -149,6 +152,14 @@ func runC14(c *Ctx) {
 									case 4:
 										spec = abs.Cat(b0, abs.Pack(abs.K(1, uint64(mask)), abs.K(7, 1)))
 										payload = abs.LConst(1)
+									case 5:
+										dom["len16"] = Dom{W: 16, Hi: 125}
+										spec = abs.Cat(b0, abs.Pack(abs.K(1, uint64(mask)), abs.K(7, 126)), abs.BE("len16", 2))
+										payload = abs.LAtom("len16")
+									case 6:
+										dom["len64"] = Dom{W: 40, Hi: 125}
+										spec = abs.Cat(b0, abs.Pack(abs.K(1, uint64(mask)), abs.K(7, 127)), abs.Pack(abs.K(24, 0), abs.F("len64", 39, 0)))
+										payload = abs.LAtom("len64")
 									case 3:
 										dom["low63"] = Dom{W: 63, Hi: -1}
 										spec = abs.Cat(b0, abs.Pack(abs.K(1, uint64(mask)), abs.K(7, 127)), abs.Pack(abs.K(1, 1), abs.F("low63", 62, 0)))
@@ -190,7 +201,7 @@ func runC14(c *Ctx) {
 									}
 									key := fmt.Sprintf("websocket|advanceFrame|role=%s,opcode=%d,fin=%d,rsv=%s,mask=%s,open-message=%v,deflate=%v,len=%s",
 										map[int64]string{0: "client", 1: "server"}[isServer], opcode, fin, []string{"none", "rsv1", "rsv2"}[rsv],
-										map[bool]string{true: "ok", false: "wrong"}[maskOK], readFinal == 0, comp, []string{"<=125", "16-bit", "64-bit", "64-bit-msb-set", "close-with-1-byte-body"}[lf])
+										map[bool]string{true: "ok", false: "wrong"}[maskOK], readFinal == 0, comp, []string{"<=125", "16-bit", "64-bit", "64-bit-msb-set", "close-with-1-byte-body", "16-bit-form-with-small-length", "64-bit-form-with-small-length"}[lf])
 									got := "?"
 									ok := false
 									switch {
